@@ -166,17 +166,24 @@ def _arr_grid(tier):
     for (mix, ranks) in (([['id', 'mono2'], ['const', 'id']], [1, 1, 1]), ([['id', 'mono2'], ['const', 'id']], [1, 2, 1]),
                          ([['const', 'id'], ['id', 'sin'], ['const', 'id']], [1, 1, 2, 1])):
         out.append({'mix': mix, 'ranks': ranks, 'd': 1, 'm': 2, 'ny': 2, 'repeats': 1, 'listguess': True})
+    # snapshots stored with an integer dtype (grid indices, counts): the basis evaluations are still real numbers
+    out.append({'mix': [['id', 'sin'], ['const', 'cos']], 'ranks': [1, 2, 1], 'd': 2, 'm': 3, 'ny': 1, 'repeats': 1, 'int_x': True})
+    out.append({'mix': [['const', 'id'], ['id', 'sin'], ['const', 'id']], 'ranks': [1, 2, 2, 1], 'd': 1, 'm': 2, 'ny': 2, 'repeats': 1, 'int_x': True})
     return out
 
 
 @scenario('C16', 'arr', _arr_grid)
-def arr(ctx, mix, ranks, d, m, ny, repeats, listguess=False):
+def arr(ctx, mix, ranks, d, m, ny, repeats, listguess=False, int_x=False):
     """ARR: micro_matrix^T vec(core_i) == predictions of the current coefficient train on every snapshot; rhs; schedule; ranks; guess unchanged"""
     reg, tdt = ctx.R.regression, ctx.R.transform
     TT = ctx.R.TT
     if ctx.mode == 'tv':
         raise SkipTV()
     x = ctx.input('x', (d, m), False)
+    x_code = x
+    if int_x:
+        x_code = np.array([[1, -2, 0], [2, 1, -1]], dtype=int)[:d, :m]
+        x = ctx.lift(x_code.astype(float))
     y = ctx.input('y', (ny, m), False)
     phi = [_funcs(ctx, tdt, d, w) for w in mix]
     p = len(phi)
@@ -198,9 +205,9 @@ def arr(ctx, mix, ranks, d, m, ny, repeats, listguess=False):
     try:
         if listguess:
             glist = [TT(mk_cores(ctx, 'g%d' % k, sg, False)) for k in range(ny)]
-            sol = reg.arr(x, y, phi, glist, repeats=repeats, rcond=1e-2, progress=False)
+            sol = reg.arr(x_code, y, phi, glist, repeats=repeats, rcond=1e-2, progress=False)
         else:
-            sol = reg.arr(x, y, phi, guess, repeats=repeats, rcond=1e-2, progress=False)
+            sol = reg.arr(x_code, y, phi, guess, repeats=repeats, rcond=1e-2, progress=False)
     finally:
         g['__arr_update_core'] = orig
     ctx.check('one coefficient train per output row', isinstance(sol, list) and len(sol) == ny)
